@@ -68,7 +68,13 @@ def c19_meshes():
     return M
 
 
-def query(mods, ref, fsel_expr, l, b, ctx, outside=None, canary=False):
+def prior_point(ref):
+    """A concrete interior cell centre of the first level-0 box (queried first in the history runs)."""
+    blo, bhi = ref.boxes[0][0]
+    return [ref.lo[d] + (blo[d] + min(1, bhi[d] - blo[d]) + 0.5) * ref.dx[0][d] for d in range(3)]
+
+
+def query(mods, ref, fsel_expr, l, b, ctx, outside=None, canary=False, prior=None):
     PlotfileCooker = mods['amr_kitchen.plotfile_cooker'].PlotfileCooker
     fs = SymFS()
     ref.write_symfs(fs, '/work/plt')
@@ -94,7 +100,15 @@ def query(mods, ref, fsel_expr, l, b, ctx, outside=None, canary=False):
     with patch.Patched(mods, fs, stubs={'amr_kitchen.plotfile_cooker': {'map_coordinates': map_coordinates_stub}}), common.quiet():
         pck = PlotfileCooker('plt')
         try:
-            got = pck[fsel](*point)
+            sel = pck[fsel]
+            if prior is not None:
+                # a history on one retained selector: an earlier query must not change what a later one returns
+                what = 'sel = pck[%s]; sel(%s); sel(cell centre of level %d box %d)' % (fsel_expr, ', '.join('%g' % x for x in prior), l, b)
+                try:
+                    sel(*prior)
+                except Exception:
+                    pass
+            got = sel(*point)
         except Exception as e:
             if outside is not None:
                 obl.holds(True, 'refused')
@@ -159,6 +173,26 @@ def run_case(case):
                         sig = 'C19/%s/level%s/%s' % (origin, '0' if l == 0 else '>0', 'raises' if 'raised' in msg else 'value')
                         if sig not in viol:
                             viol[sig] = {'signature': sig, 'what': msg[:300], 'fsel': fe, 'l': l, 'b': b, 'model': ctx.model()}
+    # histories: the same selector object answers another point first
+    for l in range(ref.nlev):
+        for b, (blo, bhi) in enumerate(ref.boxes[l]):
+            if any(bhi[d] - blo[d] + 1 < 3 for d in range(3)):
+                continue
+            fe = fsels[(l + b + 1) % len(fsels)]
+
+            def hpath(ctx, fe=fe, l=l, b=b):
+                return query(mods, ref, fe, l, b, ctx, prior=prior_point(ref))
+            results, exhaustive, stats = core.explore(hpath, max_paths=400)
+            res.add_explore(results, exhaustive, stats)
+            n += stats['paths']
+            for ctx, obl in results:
+                if obl is None:
+                    continue
+                res.add_obl(obl)
+                if obl.failed and not ctx.flags:
+                    sig = 'C19/history/level%s' % ('0' if l == 0 else '>0')
+                    if sig not in viol:
+                        viol[sig] = {'signature': sig, 'what': obl.failed[0][0][:300], 'fsel': fe, 'l': l, 'b': b, 'model': ctx.model(), 'prior': prior_point(ref)}
     # outside the domain
     for pt in ([ref.lo[0] - 1.0, ref.lo[1] + ref.dx[0][1] / 2, ref.lo[2] + ref.dx[0][2] / 2], [ref.hi[0] + 0.5, ref.hi[1] + 0.5, ref.hi[2] + 0.5]):
         def opath(ctx, pt=pt):
@@ -217,7 +251,7 @@ def make_replay(ref, v):
         comps = [fsel] if isinstance(fsel, int) else ([ref.fields.index(fsel)] if isinstance(fsel, str) else
                  (list(range(ref.nf))[fsel] if isinstance(fsel, slice) else list(fsel)))
         case = {'property': 'C19', 'handler': 'c19', 'signature': v['signature'], 'what': v['what'], 'fsel': v['fsel'], 'point': point,
-                'expected': [float(data[l][b][cell + (c,)]) for c in comps]}
+                'expected': [float(data[l][b][cell + (c,)]) for c in comps], 'prior': v.get('prior')}
     with open(os.path.join(d, 'case.json'), 'w') as f:
         json.dump(case, f, indent=1)
     common.write_replay_stub(d)
